@@ -81,6 +81,10 @@ func c11Render(n M, a c11Amb) string {
 		if wr := list(n["wr"]); len(wr) > 0 {
 			rs = wr // the ranges as written; "rune" has case folding expanded
 		}
+		if len(rs) == 0 {
+			// the empty class (matches nothing) has no direct spelling
+			return c11Flagged(`[^\x00-\x{10FFFF}]`, "i", c11HasFlag(n, "FoldCase"), a.i)
+		}
 		b.WriteString("[")
 		for k := 0; k+1 < len(rs); k += 2 {
 			lo, hi := rune(num(rs[k])), rune(num(rs[k+1]))
